@@ -8,7 +8,7 @@ import verifcfg
 TEXT = {
  "C01": dict(tech="rapid model-based generation of log histories; exhaustive (event, query-version) pairs per small log; verifier as oracle",
    text="Generated-input search: every generated log (digest patterns incl. long shared prefixes, any Add/AddBulk split) is built on the real Balloon, and every (event, query version) pair of small logs (boundary+drawn pairs of large ones) must yield an answer that exists, names a true insertion version and verifies (object, JSON wire form, real HTTP client) against the snapshots the log issued; re-checked after every later insertion. Held-on-everything-explored, not a proof.",
-   note="Trusts crypto/sha256 and the snapshots returned by the log (tied to the independent reference model by C04). In-process bplus store; RocksDB variant is exercised by C05/C08.", ref="§5 C01"),
+   note="Trusts crypto/sha256 and the snapshots returned by the log (tied to the independent reference model by C04). In-process bplus store, plus a unit on a real RocksDB store with close/reopen at drawn points (TestRocksMembership).", ref="§5 C01"),
  "C02": dict(tech="rapid adversarial-answer grammar over genuine answers; soundness oracle from the generator's ground truth",
    text="Generated-input search over candidate answers an adversarial server can assemble (0-3 operators over every field and audit-path entry, splices, extra entries carrying the true hash of a node the verifier must compute itself, prefix-sharing digests and near misses of the base event, honest non-member answers), verified exactly as a client does against authentic snapshots and, in a second unit, through the real HTTP client's one-call MembershipAutoVerify against a lying server; any accepted false claim is a violation. Exploration of a grammar, not a cryptographic proof.",
    note="Adversary limited to the operator grammar; SHA-256 collisions out of scope; a verifier panic counts as 'not accepted' here (C12 owns it).", ref="§5 C02"),
